@@ -106,8 +106,11 @@ func C20Scalars() {
 }
 
 // C20Slices: element-wise.
-func C20Slices() {
-	n := sym.Choose("n", 3)
+func C20Slices()     { c20Slices(3) }
+func C20SlicesDeep() { c20Slices(7) }
+
+func c20Slices(maxN int) {
+	n := sym.Choose("n", maxN)
 	src := make([]int16, n)
 	for i := range src {
 		src[i] = sym.I16("e")
@@ -136,10 +139,13 @@ func C20Slices() {
 }
 
 // C20Maps: keys and values are preserved.
-func C20Maps() {
-	n := sym.Choose("n", 3)
+func C20Maps()     { c20Maps(3) }
+func C20MapsDeep() { c20Maps(5) }
+
+func c20Maps(maxN int) {
+	n := sym.Choose("n", maxN)
 	src := map[string]int32{}
-	keys := []string{"a", "bb"}
+	keys := []string{"a", "bb", "ccc", "", "A"}
 	for i := 0; i < n; i++ {
 		src[keys[i]] = sym.I32("v")
 	}
